@@ -1135,6 +1135,9 @@ class Index:
                 plain = d2 is not None and d2[0] == "let" and not d2[3] and v0["lid"] not in self.canon.assigned
                 if deferred or plain:
                     sub = self.local_value_cases(v0["lid"], _depth + 1)
+                    if len(sub) == 1 and plain and sub[0][1] is peel(d2[1]):
+                        out.append((sub[0][0], site))      # a plain alias: its value, produced where the alias is used
+                        continue
                     if sub:
                         out += sub
                         continue
@@ -1164,6 +1167,46 @@ class Index:
             conds = sorted(set(pc["cond"] for pc in self.path_conditions(site) if pc["kind"] in self.CASE_KINDS))
             out.append((conds, canon(v) if v is not None else None))
         return sorted(out, key=lambda r: (r[0], r[1] or ""))
+
+    def call_rows(self, calls, argidx, tok=None, within=None, atomic=None):
+        """A group of alternative calls (or one call with branch-valued arguments) as rows
+        (conditions, token of each selected argument): `if c { f(2) } else { f(3) }` and `f(if c { 2 } else { 3 })`
+        and `let v = if c { 2 } else { 3 }; f(v)` give the same rows.  `within`: only conditions inside this node."""
+        tok = tok or self.canon
+        rows = []
+        for call in calls:
+            base = sorted(set(pc["cond"] for pc in self.path_conditions(call) if pc["kind"] in self.CASE_KINDS and
+                              (within is None or (pc.get("node") is not None and (pc["node"] is within or self.contains(within, pc["node"]))))))
+            combos = [(list(base), [])]
+            for i in argidx:
+                tbl = [([], tok(call["args"][i]))] if (atomic is not None and atomic(call["args"][i])) else self.case_table(call["args"][i], canon=tok)
+                # conditions of the defining branches only (those not already true for the call itself)
+                new = []
+                for conds, vals in combos:
+                    for cs, v in tbl:
+                        extra = [c_ for c_ in cs if c_ not in base]
+                        new.append((sorted(set(conds + extra)), vals + [v]))
+                combos = new
+            rows += [(c_, tuple(v_)) for c_, v_ in combos]
+        return sorted(rows)
+
+    @staticmethod
+    def group_alternatives(rows_per_call):
+        """greedy grouping of consecutive calls into slots: a call joins the previous slot when it is mutually
+        exclusive with every call already there (some condition appears negated)"""
+        from .booleval import norm_atom
+
+        def exclusive(a, b):
+            na = {norm_atom(x) for x in a}
+            nb = {norm_atom(x) for x in b}
+            return any((at, not pol) in nb for at, pol in na)
+        slots = []
+        for rows in rows_per_call:
+            if slots and all(exclusive(r1[0], r2[0]) for r1 in rows for prev in slots[-1] for r2 in prev):
+                slots[-1].append(rows)
+            else:
+                slots.append([rows])
+        return [sorted(r for call_rows_ in sl for r in call_rows_) for sl in slots]
 
     GUARD_KINDS = ("guard", "guard-else", "let-else", "arm-exit", "ok_or")
 
